@@ -228,5 +228,12 @@ func (c *Collection) readChunk(chunk commit.Chunk, fn func(uint64, commit.Chunk,
 	c.lock.Lock()
 	defer c.slock.RUnlock(uint(chunk))
 	defer c.lock.Unlock()
-	return fn(c.commits[chunk], chunk, chunk.OfBitmap(c.fill))
+
+	// The fill list may already cover a chunk nothing was committed to yet: an
+	// insert reserves its offset before it commits, or never commits at all
+	var lastCommit uint64
+	if int(chunk) < len(c.commits) {
+		lastCommit = c.commits[chunk]
+	}
+	return fn(lastCommit, chunk, chunk.OfBitmap(c.fill))
 }
